@@ -646,17 +646,24 @@ pub fn run(ctx: &mut Ctx) {
     });
 
     // ------------------------------------------------ S5: oversize stream across the 10 MiB cap
-    let streams = ctx.tier.pick(4, 16);
+    let streams = ctx.tier.pick(6, 18);
     ctx.family("S5-oversize-stream", streams, |ctx, case: &mut Case| {
         let r = &mut case.rng;
         let mut ops: Vec<Op> = Vec::new();
         let rec_len = if case.idx == 0 { 16384 } else { *r.pick(&[16384usize, 16640, 16000, 9999]) };
-        // handshake message of 2^24-1 bytes: never completes below the cap
+        // handshake message of 2^24-1 bytes: never completes below the cap ...
         let mut first = AHs::Finished(vec![]).to_bytes();
         first[1] = 0xff;
         first[2] = 0xff;
         first[3] = 0xff;
         first.extend(r.bytes(rec_len - 4));
+        if case.idx % 3 == 1 {
+            // ... or a defragmentation whose accumulated message is complete but does not parse (unknown handshake type,
+            // malformed body): the parser stays in progress, and the cap applies to whatever is fed afterwards
+            ops.push(Op::rec(0x16, if r.bool() { vec![0xff, 0, 0] } else { vec![1, 0, 0] }));
+            first = vec![1, 0x55];
+            first.extend(r.bytes(rec_len - 2));
+        }
         ops.push(Op::rec(0x16, first));
         let chunk = r.bytes(rec_len);
         let mut total = rec_len;
